@@ -7,6 +7,7 @@ Nothing under the analysed repository is imported or executed.
 from __future__ import annotations
 
 import ast
+import copy
 import builtins as _pybuiltins
 import hashlib
 import os
@@ -127,6 +128,199 @@ class ClassInfo:
         return attr
 
 
+
+def _split_mode_helpers(tree: ast.Module) -> None:
+    """Normalisation at load time: a private module-level helper that takes a *mode flag* - a parameter it only ever
+    truth-tests - and has one call site passing a non-constant flag is two helpers merged into one.  The rule tables know
+    the two (``_zip_inner`` / ``_zip_inner_strict``), so the merge is undone: two specialised copies with the flag folded
+    to False / True (dead branches then never enter the CFG), and the call ``_h(a, flag)`` becomes
+    ``_h(a) if not flag else _h__on(a)``.  Only done where that is evidently the same program: the flag parameter is
+    never stored, passed on or compared, the other arguments of the call are plain names (so evaluating the flag first
+    changes nothing), and the helper is referenced nowhere else."""
+    funcs = {n.name: n for n in tree.body if isinstance(n, (ast.FunctionDef, ast.AsyncFunctionDef))
+             and n.name.startswith("_") and not n.name.startswith("__") and not n.decorator_list}
+    if not funcs:
+        return
+    refs: Dict[str, List[ast.AST]] = {}
+    parents: Dict[int, ast.AST] = {}
+    for node in ast.walk(tree):
+        for ch in ast.iter_child_nodes(node):
+            parents[id(ch)] = node
+        if isinstance(node, ast.Name) and node.id in funcs:
+            refs.setdefault(node.id, []).append(node)
+    for name, fn in funcs.items():
+        uses = refs.get(name, [])
+        if len(uses) != 1:
+            continue
+        call = parents.get(id(uses[0]))
+        if not (isinstance(call, ast.Call) and call.func is uses[0]) or call.keywords \
+                or any(isinstance(a, ast.Starred) for a in call.args):
+            continue
+        a = fn.args
+        if a.vararg or a.kwarg or a.kwonlyargs or a.posonlyargs or a.defaults or len(a.args) < 2 or len(call.args) != len(a.args):
+            continue
+        for k in range(1, len(a.args)):
+            flag, actual = a.args[k].arg, call.args[k]
+            if isinstance(actual, ast.Constant) or not all(isinstance(x, ast.Name) for i, x in enumerate(call.args) if i != k):
+                continue
+            if not _only_truth_tested(fn, flag):
+                continue
+            variants = []
+            for value, suffix in ((False, ""), (True, "__on")):
+                v = copy.deepcopy(fn)
+                v.name = fn.name + suffix
+                del v.args.args[k]
+                _FoldName(flag, value).visit(v)
+                variants.append(v)
+            at = tree.body.index(fn)
+            tree.body[at:at + 1] = variants
+
+            def mk(v):
+                return ast.copy_location(ast.Call(func=ast.copy_location(ast.Name(id=v.name, ctx=ast.Load()), call),
+                                                  args=[copy.deepcopy(x) for i, x in enumerate(call.args) if i != k], keywords=[]), call)
+            new = ast.copy_location(ast.IfExp(test=ast.copy_location(ast.UnaryOp(op=ast.Not(), operand=actual), call),
+                                              body=mk(variants[0]), orelse=mk(variants[1])), call)
+            holder = parents.get(id(call))
+            for field, val in ast.iter_fields(holder):
+                if val is call:
+                    setattr(holder, field, new)
+                elif isinstance(val, list) and call in val:
+                    val[val.index(call)] = new
+            ast.fix_missing_locations(tree)
+            break
+
+
+class _FoldName(ast.NodeTransformer):
+    """Replace loads of one local by a constant and fold what that decides: ``if`` / conditional expressions with a
+    constant test keep the taken arm only, and nothing after a jump stays in its block."""
+
+    def __init__(self, name: str, value: bool):
+        self.name, self.value = name, value
+
+    def visit_Name(self, node: ast.Name):
+        if node.id == self.name and isinstance(node.ctx, ast.Load):
+            return ast.copy_location(ast.Constant(value=self.value), node)
+        return node
+
+    @staticmethod
+    def _const(e: ast.AST):
+        if isinstance(e, ast.Constant) and isinstance(e.value, bool):
+            return e.value
+        if isinstance(e, ast.UnaryOp) and isinstance(e.op, ast.Not):
+            v = _FoldName._const(e.operand)
+            return None if v is None else (not v)
+        return None
+
+    def visit_UnaryOp(self, node: ast.UnaryOp):
+        self.generic_visit(node)
+        v = self._const(node)
+        return ast.copy_location(ast.Constant(value=v), node) if v is not None else node
+
+    def visit_BoolOp(self, node: ast.BoolOp):
+        self.generic_visit(node)
+        is_and = isinstance(node.op, ast.And)
+        values = []
+        for v in node.values:
+            c = self._const(v)
+            if c is None:
+                values.append(v)
+            elif c != is_and:  # False in an `and` / True in an `or` decides it (operands before it have run)
+                values.append(v)
+                break
+        if not values:
+            return ast.copy_location(ast.Constant(value=is_and), node)
+        if len(values) == 1:
+            return values[0]
+        node.values = values
+        return node
+
+    def visit_IfExp(self, node: ast.IfExp):
+        self.generic_visit(node)
+        c = self._const(node.test)
+        return node if c is None else (node.body if c else node.orelse)
+
+    def _block(self, stmts):
+        out = []
+        for st in stmts:
+            r = self.visit(st)
+            for x in (r if isinstance(r, list) else [r] if r is not None else []):
+                out.append(x)
+                if isinstance(x, (ast.Return, ast.Raise, ast.Continue, ast.Break)):
+                    return out
+        return out
+
+    def visit_If(self, node: ast.If):
+        node.test = self.visit(node.test)
+        c = self._const(node.test)
+        if c is None:
+            node.body = self._block(node.body) or [ast.copy_location(ast.Pass(), node)]
+            node.orelse = self._block(node.orelse)
+            return node
+        return self._block(node.body if c else node.orelse)
+
+    def generic_visit(self, node):
+        for field in ("body", "orelse", "finalbody"):
+            val = getattr(node, field, None)
+            if isinstance(val, list) and val and isinstance(val[0], ast.stmt):
+                setattr(node, field, self._block(val) or ([ast.copy_location(ast.Pass(), node)] if field == "body" else []))
+        for field, val in ast.iter_fields(node):
+            if field in ("body", "orelse", "finalbody") and isinstance(val, list) and (not val or isinstance(val[0], ast.stmt)):
+                continue
+            if isinstance(val, list):
+                new = []
+                for x in val:
+                    if isinstance(x, ast.AST):
+                        r = self.visit(x)
+                        if r is None:
+                            continue
+                        if isinstance(r, list):
+                            new.extend(r)
+                            continue
+                        new.append(r)
+                    else:
+                        new.append(x)
+                val[:] = new
+            elif isinstance(val, ast.AST):
+                r = self.visit(val)
+                if r is None:
+                    delattr(node, field)
+                else:
+                    setattr(node, field, r)
+        return node
+
+
+def _only_truth_tested(fn: ast.AST, name: str) -> bool:
+    """Every occurrence of the local ``name`` in ``fn`` is a load in truth-test position (an ``if`` / ``while`` /
+    conditional-expression test, possibly under ``not`` / ``and`` / ``or``); nested scopes do not mention it."""
+    ok_ids: Set[int] = set()
+
+    def mark(e: ast.AST) -> None:
+        if isinstance(e, ast.Name):
+            ok_ids.add(id(e))
+        elif isinstance(e, ast.UnaryOp) and isinstance(e.op, ast.Not):
+            mark(e.operand)
+        elif isinstance(e, ast.BoolOp):
+            for v in e.values:
+                mark(v)
+    seen = False
+    for node in ast.walk(fn):
+        if isinstance(node, (ast.If, ast.While, ast.IfExp)):
+            mark(node.test)
+        elif isinstance(node, ast.Assert):
+            mark(node.test)
+    for node in ast.walk(fn):
+        if isinstance(node, ast.Name) and node.id == name:
+            if not isinstance(node.ctx, ast.Load) or id(node) not in ok_ids:
+                return False
+            seen = True
+        elif isinstance(node, (ast.FunctionDef, ast.AsyncFunctionDef, ast.Lambda)) and node is not fn:
+            if any(isinstance(x, ast.Name) and x.id == name for x in ast.walk(node)):
+                return False
+        elif isinstance(node, (ast.Global, ast.Nonlocal)) and name in node.names:
+            return False
+    return seen
+
+
 class Module:
     def __init__(self, pkg: "Package", name: str, path: str, relpath: str):
         self.pkg = pkg
@@ -142,6 +336,7 @@ class Module:
         except SyntaxError as exc:
             raise AnalysisError(f"cannot parse {relpath}: {exc}") from None
         self.digest = hashlib.sha256(self.source.encode()).hexdigest()[:16]
+        _split_mode_helpers(self.tree)
         # name -> ('import', module, name) | ('def', node) | ('class', node) | ('assign', value)
         self.symbols: Dict[str, Tuple[Any, ...]] = {}
         self.units: Dict[str, Unit] = {}
@@ -360,19 +555,32 @@ class Package:
         "itertools.chain._chain_iterator": ("itertools.chain.__init__", "asyncgen", 0),
         "heapq._KeyIter.from_iters": ("heapq.merge", "asyncgen", 0),
         "_core._aiter_sync": ("_core.aiter", "asyncgen", 0),
+        # the two helpers of the awaitify wrapper, wherever its class keeps them (module level or as static methods):
+        # the plain function that builds a coroutine function around a callable, and the coroutine that returns its argument
+        "_core.force_async": ("_core.Awaitify.*", "sync", 0, "defines_coroutine"),
+        "_core.await_value": ("_core.Awaitify.*", "coroutine", 0),
     }
 
     def _fallback(self, short: str) -> Optional[Unit]:
         spec = self.ANCHOR_FALLBACKS.get(short)
         if spec is None:
             return None
-        user, kind, index = spec
+        user, kind, index = spec[:3]
+        pred = spec[3] if len(spec) > 3 else None
         umod, _, uqual = user.partition(".")
         m = self.modules.get(f"{PKG}.{umod}")
-        if m is None or uqual not in m.units:
+        if m is None:
+            return None
+        if uqual.endswith(".*"):
+            if uqual[:-2] not in m.classes:
+                return None
+            root: ast.AST = m.classes[uqual[:-2]].node
+        elif uqual in m.units:
+            root = m.units[uqual].node
+        else:
             return None
         found: List[Unit] = []
-        for call in ast.walk(m.units[uqual].node):
+        for call in ast.walk(root):
             if not isinstance(call, ast.Call):
                 continue
             cands: List[Unit] = []
@@ -397,6 +605,8 @@ class Package:
                 if u.kind == kind and (u.module is m or u.module.short.startswith("_")) and u.parent is None \
                         and not u.is_overload() \
                         and (u.qualname.rsplit(".", 1)[-1].startswith("_") or not self._is_public(u)):
+                    if pred == "defines_coroutine" and not any(isinstance(x, ast.AsyncFunctionDef) for x in ast.walk(u.node) if x is not u.node):
+                        continue
                     if u not in found:
                         found.append(u)
         found.sort(key=lambda u: u.lineno)
@@ -462,6 +672,9 @@ class Package:
         "contextlib._AsyncGeneratorContextManager": ("contextlib.contextmanager", 0),
         "itertools._GroupByState": ("itertools.GroupBy.__init__", 0),
         "itertools._Grouper": ("itertools.GroupBy.__anext__", 0),
+        # (the wrapper of a computed value: the class with __await__ that a method of the pending-value class instantiates;
+        # it may live in a private module of the package and need not have a private name)
+        "functools.AwaitableValue": ("functools._FutureCachedPropertyValue.*", 0, "__await__"),
     }
 
     def cls(self, short: str) -> ClassInfo:
@@ -480,22 +693,34 @@ class Package:
             return None
         user, index = spec[0], spec[1]
         must_have = spec[2] if len(spec) > 2 else None
-        try:
-            uu = self._unit_or_none(user, _depth + 1)
-        except AnalysisError:
-            return None
-        if uu is None:
-            return None
-        m = uu.module
+        if user.endswith(".*"):
+            try:
+                holder = self.cls(user[:-2])
+            except AnalysisError:
+                return None
+            m = holder.module
+            roots: List[ast.AST] = [holder.node]
+        else:
+            try:
+                uu = self._unit_or_none(user, _depth + 1)
+            except AnalysisError:
+                return None
+            if uu is None:
+                return None
+            m = uu.module
+            roots = [uu.node]
         found: List[ClassInfo] = []
-        nodes = sorted((n for n in ast.walk(uu.node) if isinstance(n, ast.Name) and isinstance(n.ctx, ast.Load)),
+        nodes = sorted((n for r in roots for n in ast.walk(r) if isinstance(n, ast.Name) and isinstance(n.ctx, ast.Load)),
                        key=lambda n: (n.lineno, n.col_offset))
         for n in nodes:
             res = self.resolve_global(m, n.id)
             if res.kind == "lib" and isinstance(res.node, ast.ClassDef):
                 info = self.lib_class(res.qual)
-                if info is not None and info.module is m and info.name.startswith("_") and info not in found \
-                        and (must_have is None or must_have in info.methods):
+                if info is None or info in found or (must_have is not None and must_have not in info.methods):
+                    continue
+                local_private = info.module is m and info.name.startswith("_")
+                moved = user.endswith(".*") and (info.module is m or info.module.short.startswith("_"))
+                if local_private or moved:
                     found.append(info)
         return found[index] if index < len(found) else None
 
@@ -511,7 +736,16 @@ class Package:
             info = m.classes.get(cname) or self._class_fallback(f"{mod}.{cname}", _depth)
             if info is not None and meth in info.methods:
                 return info.methods[meth]
-        return self._fallback(short)
+        found = self._fallback(short)
+        if found is None and cname:
+            # a function nested in an anchored helper that is found structurally: ``_core.force_async.async_wrapped``
+            outer = self._fallback(f"{mod}.{cname}")
+            if outer is not None:
+                nested = [u for u in outer.module.units.values() if u.parent is outer]
+                named = [u for u in nested if u.qualname.rsplit(".", 1)[-1] == meth]
+                if named or len(nested) == 1:
+                    return (named or nested)[0]
+        return found
 
     def cls_name(self, short: str) -> str:
         """The actual (possibly renamed) name of an anchored class."""
